@@ -86,10 +86,12 @@ type tokenBag struct {
 	mu sync.Mutex
 	l  [][]core.Listener
 	t  [][]core.StrategyToken
+	// refused[g]: the token goroutine g got with its latest refused request
+	refused []core.StrategyToken
 }
 
 func newBag() *tokenBag {
-	return &tokenBag{l: make([][]core.Listener, 16), t: make([][]core.StrategyToken, 16)}
+	return &tokenBag{l: make([][]core.Listener, 16), t: make([][]core.StrategyToken, 16), refused: make([]core.StrategyToken, 16)}
 }
 
 func limiterMethods(l core.Limiter, bag *tokenBag, blocking bool) []c17Method {
@@ -284,8 +286,19 @@ func c17Subjects() []c17Subject {
 		m := []c17Method{
 			{"TryAcquire", true, func(g, a int) {
 				tk, ok := st.TryAcquire(stackKeyCtx(context.Background(), []string{"a", "b", "zz"}[a%3]))
+				_, _ = tk.IsAcquired(), tk.InFlightCount() // the token's own accessors, granted or refused
 				if ok {
 					bag.t[g] = append(bag.t[g], tk)
+				} else {
+					bag.refused[g] = tk // a caller may keep the token of its refused request and look at it later
+				}
+			}},
+			{"TokenAccessors", false, func(g, a int) {
+				if tk := bag.refused[g]; tk != nil {
+					_, _ = tk.IsAcquired(), tk.InFlightCount()
+				}
+				if n := len(bag.t[g]); n > 0 {
+					_, _ = bag.t[g][n-1].IsAcquired(), bag.t[g][n-1].InFlightCount()
 				}
 			}},
 			{"Release", true, func(g, a int) {
